@@ -61,7 +61,9 @@ def _gene_state(g):
 
 
 def _cov_state(c):
-    return {"_coverage": c._coverage, "_indels": c._indels, "_cnv": dict(c._cnv_coverage), "_region": c._region_coverage}
+    # the sample's read-phase table is evidence too (the minor stage reads it through `coverage.sam.phases`)
+    return {"_coverage": c._coverage, "_indels": c._indels, "_cnv": dict(c._cnv_coverage), "_region": c._region_coverage,
+            "phases": dict(getattr(getattr(c, "sam", None), "phases", None) or {})}
 
 
 def _digest(state):
@@ -120,7 +122,21 @@ def make_world(r, gd):
     t = collections.defaultdict(dict)
     for pos, op, quals in table:
         t[pos][op] = [(q[0], q[1]) for q in quals for _ in range(q[2])]
-    cov = Coverage(gene, prof, None, t, None, {})
+    sam = None
+    if r.random() < 0.5 and planted:
+        # read fragments over one to four neighbouring sites (single-site ones included), as the pileup records them
+        sites = sorted({p for p, _ in gene.mutations})
+        frs = {}
+        for fi in range(r.randint(4, 14)):
+            maj, mino = r.choice(planted)
+            ms = sorted(set(gene.alleles[maj].func_muts) | set(gene.alleles[maj].minors[mino].neutral_muts))
+            if not sites:
+                break
+            lo = r.randrange(len(sites))
+            span = sites[lo:lo + r.randint(1, 4)]
+            frs[f"f{fi}"] = {p: next((m.op for m in ms if m.pos == p), "_") for p in span}
+        sam = c04.FakeSam(frs)
+    cov = Coverage(gene, prof, sam, t, None, {})
     cov._region_coverage = {(gi, reg): float(cn_sol.region_cn[gi][reg]) for gi, g in enumerate(gene.regions) for reg in g}
     return gene, cov, cn_sol, prof
 
